@@ -884,6 +884,13 @@ def _tarExtractFilter(member, path):
     if os.path.commonpath([full_name, path]) != path:
         raise BuildError(f"Refusing to extract '{name}' from tar file. File is outside of destination directory.")
 
+    # Hard links are created to already extracted files. Their target must not
+    # leave the destination either.
+    if member.islnk():
+        full_target = os.path.realpath(os.path.join(path, member.linkname))
+        if os.path.commonpath([full_target, path]) != path:
+            raise BuildError(f"Refusing to extract hard link '{name}' -> '{member.linkname}' from tar file. Target is outside of destination directory.")
+
     return member
 
 def tarfileOpen(*args, **kwargs):
